@@ -132,6 +132,13 @@ CLAIMED = {
             'non-error response printer - directly, through returned strings or through caller-supplied streams - only through protectName; (3) functions echoing parser text '
             'to std::cout distinguish quoted-symbol tokens. Number/abstract-value formats, let-abbreviation names, the `as` disambiguation and read-back equality itself are value-level and not decided.',
             'static analysis: truth-table interpretation of the quoting predicate; interprocedural flow-insensitive string-provenance (taint) analysis with function summaries over the mini-AST', ''),
+    'C07': ('other',
+            'Static, protocol clauses of the deletion-based minimisation only (irreducibility itself is a statement about satisfiability of subsets and is not decided): on every '
+            'path through one iteration of UnsatCoreBuilder::Minimize::performNaive the trial check runs inside a balanced push/pop bracket in which the candidate is not asserted; '
+            'the candidate is dropped only on a path that established the unsat verdict and kept otherwise; a kept candidate is asserted outside the bracket; the candidate loop '
+            'covers every candidate and the trial asserts exactly the later candidates; the background is asserted before the first trial and, in named mode, consists of every '
+            'current assertion not known to the name registry.',
+            'static analysis: path-sensitive typestate walk of one loop iteration (push depth, verdict, keep/drop) + loop-range and selection rules over the mini-AST', ''),
     'C15': ('other',
             'Static: (1) UB-obligation engine - every compiler-inserted sanitizer obligation (signed overflow, narrowing, sign change, float cast) in FastRational.h/.cc is '
             'either deleted by LLVM -O2 range analysis or listed in a table with a written justification and the guards it relies on (guards must still be present); the IR '
@@ -153,7 +160,6 @@ CLAIMED = {
 }
 
 NOT_APPLICABLE = {
-    'C07': 'irreducibility of a core is a statement about satisfiability of subsets computed at run time; no clause of it is visible in the shape of the code',
     'C08': 'implication/unsat/vocabulary conditions on formulas built from a runtime proof; only a frozen-fragment match could see the labelling rules, which would fire on behaviour-preserving edits',
     'C09': 'path-interpolation is an implication between runtime formulas; the only structural precondition (mask nesting) is an assert',
     'C11': 'validity in the theory of clauses built from runtime solver state; the one shape-visible clause (positive Farkas coefficients) is claimed under C26',
